@@ -73,6 +73,44 @@ def run_bounded(chk):
                         n_eval += len(Q2)
                         if got2.shape != want.shape or np.any(got2 != want):
                             fails.append((f"{name}/{cls}/N2", {"note": "(N,2) input disagrees with exact membership"}))
+    # far in-plane placements (|offset| / size up to 3e8): the vertices and query points are the floating-point sums, and the
+    # exact oracle is applied to those very numbers; query points keep >= 1% of the size from the boundary
+    for name in ("L", "arrow", "triangle", "pentagon_irregular", "comb"):
+        pts = polys[name]
+        ext = max(max(float(p[0]) for p in pts) - min(float(p[0]) for p in pts), max(float(p[1]) for p in pts) - min(float(p[1]) for p in pts))
+        for T in ((1.0e6 + 0.37, -2.0e6 + 0.11), (3.0e7 + 0.5, 5.0e7 - 0.25), (-1.0e9, 1.0e9), (8.0e6 + 1 / 3, 8.0e6 - 1 / 7)):
+            for orient in (1, -1):
+                n_cases += 1
+                q = list(pts) if orient == 1 else list(reversed(pts))
+                Pf = [(float(x) + T[0], float(y) + T[1]) for x, y in q]
+                lo = np.array([min(p[0] for p in Pf), min(p[1] for p in Pf)])
+                hi = np.array([max(p[0] for p in Pf), max(p[1] for p in Pf)])
+                gx = np.linspace(lo[0] - 0.3 * ext, hi[0] + 0.3 * ext, 17)
+                gy = np.linspace(lo[1] - 0.3 * ext, hi[1] + 0.3 * ext, 17)
+                Q, want = [], []
+                for x in gx:
+                    for y in gy:
+                        if _near_edge((float(x), float(y)), Pf, 0.01 * ext):
+                            continue
+                        m = oracle.point_in_polygon((float(x), float(y)), Pf)
+                        if m != 0:
+                            Q.append((float(x), float(y), 0.0))
+                            want.append(m > 0)
+                Q, want = np.array(Q), np.array(want)
+                try:
+                    poly = cox.shapes.Polygon([[x, y, 0.0] for x, y in Pf])
+                    got = np.asarray(poly.is_inside(Q))
+                except Exception as e:  # noqa: BLE001
+                    fails.append((f"{name}/far{T}", {"exception": f"{type(e).__name__}: {e}"}))
+                    continue
+                n_eval += len(Q)
+                bad = np.nonzero(got != want)[0] if got.shape == want.shape else [0]
+                if len(bad):
+                    i = int(bad[0])
+                    fails.append((f"{name}/Polygon/{'ccw' if orient == 1 else 'cw'}/far_offset_{T[0]:.3g}_{T[1]:.3g}",
+                                  {"vertices": [[x, y, 0.0] for x, y in Pf], "point": Q[i].tolist(), "expected_inside": bool(want[i]),
+                                   "is_inside": bool(got[i]) if got.shape == want.shape else None, "n_wrong": int(len(bad)),
+                                   "distance_from_boundary_at_least": 0.01 * ext}))
     for name, info in fails[:5]:
         chk.record(f"bounded:is_inside_2d[{name}]", fkey, "bounded-fail", "exact-membership", detail=str(info)[:500], model={},
                    kind="bounded", replay=lambda m, info=info, name=name: (True, {"case": name, **info}))
@@ -81,7 +119,8 @@ def run_bounded(chk):
     chk.bounded.append({
         "clause": "Polygon/ConvexPolygon.is_inside == exact rational crossing-number membership; batch == single; (N,2) accepted",
         "bound": "11 fixed simple polygons + 3 (quick) / 30 seeded star polygons, both orientations, 4 placements in 3-space, "
-                 "query points: 9x9 grid of the bounding box enlarged by 30% plus all points sharing x or y with a vertex, margin 1e-6 size",
+                 "query points: 9x9 grid of the bounding box enlarged by 30% plus all points sharing x or y with a vertex, margin 1e-6 size; "
+                 "5 polygons x 4 far in-plane offsets (|offset|/size 1e5..3e8) x both orientations, 17x17 grid, margin 1% of the size",
         "evaluations": n_eval, "distinct_nontrivial": n_cases,
         "rule": "distinct = (polygon, orientation, placement); every case has interior and exterior query points",
         "samples": [{"polygon": "L", "vertices": polys["L"]}], "failures": len(fails), "exhaustive": False})
